@@ -798,6 +798,8 @@ class PayloadDELETE(Payload):
             raise InvalidSyntax('Error parsing Payload DELETE.')
         spis = []
         offset = 4
+        # never read more SPIs than the payload actually carries (a SPI size of 0 means there are none)
+        num_spis = min(num_spis, (len(data) - 4) // spi_size) if spi_size > 0 else 0
         for i in range(0, num_spis):
             spis.append(data[offset:offset + spi_size])
             offset += spi_size
